@@ -43,6 +43,7 @@ type SolveOpts struct {
 	Timeout1  int    // first-stage timeout (z3-new alone)
 	Timeout2  int    // second stage (race of all)
 	Workers   int
+	Batch     bool // send obligations with a common prefix to one incremental run first
 	CrossCheck bool // run every solver to completion and report disagreement
 	Verbose   bool
 }
@@ -144,7 +145,7 @@ func raceSolvers(specs []SolverSpec, timeoutS int, file string) (string, string,
 
 // Solve discharges the obligations of several VCs in parallel.
 func Solve(vcs []*VC, opts SolveOpts, filter func(*Obligation) bool) []*Result {
-	type job struct {
+	type job = struct {
 		vc  *VC
 		o   *Obligation
 		idx int
@@ -169,23 +170,89 @@ func Solve(vcs []*VC, opts SolveOpts, filter func(*Obligation) bool) []*Result {
 		opts.Timeout2 = 10
 	}
 	_ = os.MkdirAll(opts.Dir, 0o755)
+	// group obligations that share prefix and path condition: they are sent to one incremental solver run first
+	type group struct{ js []job }
+	var groups []*group
+	byKey := map[string]*group{}
+	for _, j := range jobs {
+		if j.o.Cover || j.o.MustFail || j.o.Goal == True || j.o.PC == False {
+			groups = append(groups, &group{[]job{j}})
+			continue
+		}
+		key := fmt.Sprintf("%p|%d|%d|%s", j.vc, j.o.NDecl, j.o.NFact, j.o.PC)
+		g := byKey[key]
+		if g == nil || len(g.js) >= 60 {
+			g = &group{}
+			byKey[key] = g
+			groups = append(groups, g)
+		}
+		g.js = append(g.js, j)
+	}
 	var wg sync.WaitGroup
-	ch := make(chan job)
+	ch := make(chan *group)
 	for w := 0; w < opts.Workers; w++ {
 		wg.Add(1)
 		go func() {
 			defer wg.Done()
-			for j := range ch {
-				results[j.idx] = solveOne(j.vc, j.o, j.idx, opts)
+			for g := range ch {
+				if len(g.js) >= 3 && opts.Batch {
+					solveBatch(g.js[0].vc, g.js, results, opts)
+					continue
+				}
+				for _, j := range g.js {
+					results[j.idx] = solveOne(j.vc, j.o, j.idx, opts)
+				}
 			}
 		}()
 	}
-	for _, j := range jobs {
-		ch <- j
+	for _, g := range groups {
+		ch <- g
 	}
 	close(ch)
 	wg.Wait()
 	return results
+}
+
+// solveBatch: one incremental z3 run for obligations with a common prefix; whatever is not `unsat` there is retried alone.
+func solveBatch(vc *VC, js []struct {
+	vc  *VC
+	o   *Obligation
+	idx int
+}, results []*Result, opts SolveOpts) {
+	var os_ []*Obligation
+	for _, j := range js {
+		os_ = append(os_, j.o)
+	}
+	file := filepath.Join(opts.Dir, fmt.Sprintf("b%05d.smt2", js[0].idx))
+	ok := os.WriteFile(file, []byte(vc.BatchScript(os_)), 0o644) == nil
+	var lines []string
+	dt := 0.0
+	if ok {
+		perQueryMs := 1500
+		total := 20 + len(js)
+		ctx, cancel := context.WithTimeout(context.Background(), time.Duration(total)*time.Second)
+		cmd := exec.CommandContext(ctx, "z3-new", fmt.Sprintf("-t:%d", perQueryMs), fmt.Sprintf("-T:%d", total), file)
+		var out bytes.Buffer
+		cmd.Stdout = &out
+		cmd.Stderr = &out
+		t0 := time.Now()
+		_ = cmd.Run()
+		cancel()
+		dt = time.Since(t0).Seconds()
+		for _, ln := range strings.Split(out.String(), "\n") {
+			ln = strings.TrimSpace(ln)
+			if ln == "unsat" || ln == "sat" || ln == "unknown" {
+				lines = append(lines, ln)
+			}
+		}
+	}
+	for k, j := range js {
+		if k < len(lines) && lines[k] == "unsat" {
+			results[j.idx] = &Result{VC: vc, Obl: j.o, Status: "discharged", Raw: "unsat", Solver: "z3-new(batch)", TimeS: dt / float64(len(js)), PerSolver: map[string]string{"z3-new": "unsat"}, Script: file}
+			continue
+		}
+		results[j.idx] = solveOne(j.vc, j.o, j.idx, opts)
+	}
 }
 
 func solveOne(vc *VC, o *Obligation, idx int, opts SolveOpts) *Result {
@@ -211,6 +278,33 @@ func solveOne(vc *VC, o *Obligation, idx int, opts SolveOpts) *Result {
 			r.Status = "cover-ok"
 		}
 		return r
+	}
+	// stage S: case split over the paths merged into the obligation's path condition
+	if !o.Cover && len(o.Splits) > 1 && len(o.Splits) <= 64 {
+		all := true
+		tot := 0.0
+		for k, sp := range o.Splits {
+			o2 := *o
+			o2.PC = And(o.PC, sp)
+			o2.Splits = nil
+			sfile := filepath.Join(opts.Dir, fmt.Sprintf("o%05d.split%d.smt2", idx, k))
+			if err := os.WriteFile(sfile, []byte(vc.ScriptOpt(&o2, false, true)), 0o644); err != nil {
+				all = false
+				break
+			}
+			raw, _, dt := runSolver(Solvers[0], opts.Timeout1, sfile)
+			tot += dt
+			if raw != "unsat" {
+				all = false
+				break
+			}
+		}
+		r.TimeS += tot
+		if all {
+			r.Raw, r.Solver, r.Status = "unsat", fmt.Sprintf("z3-new(split %d)", len(o.Splits)), "discharged"
+			r.PerSolver[Solvers[0].Name] = "unsat"
+			return r
+		}
 	}
 	// stage 0: cone-of-influence slice (fewer assumptions: an `unsat` there is an `unsat` of the full script)
 	if !o.Cover && o.NFact > 40 {
